@@ -51,6 +51,32 @@ const (
 	arpaV6MaxLen = arpaV6MaxIPLen + len(arpaV6Suffix)
 )
 
+// asciiToLower returns s with all ASCII upper-case letters mapped to their
+// lower case.  Unlike [strings.ToLower], it never maps a non-ASCII rune to an
+// ASCII letter, so the result matches an ARPA suffix only if s does so
+// ASCII-case-insensitively.
+func asciiToLower(s string) (lower string) {
+	i := 0
+	for ; i < len(s); i++ {
+		if c := s[i]; c >= 'A' && c <= 'Z' {
+			break
+		}
+	}
+
+	if i == len(s) {
+		return s
+	}
+
+	b := []byte(s)
+	for ; i < len(b); i++ {
+		if c := b[i]; c >= 'A' && c <= 'Z' {
+			b[i] = c + ('a' - 'A')
+		}
+	}
+
+	return string(b)
+}
+
 // reverseIPv4 inverts the order of bytes in an IP address.
 func reverseIPv4(ip [4]byte) (out [4]byte) {
 	out[0], out[1], out[2], out[3] = ip[3], ip[2], ip[1], ip[0]
@@ -131,7 +157,7 @@ func IPFromReversedAddr(arpa string) (addr netip.Addr, err error) {
 	defer makeAddrError(&err, arpa, AddrKindARPA)
 
 	// TODO(a.garipov): Add stringutil.HasSuffixFold and remove this.
-	arpa = strings.ToLower(arpa)
+	arpa = asciiToLower(arpa)
 	switch {
 	case strings.HasSuffix(arpa, arpaV4Suffix):
 		ipStr := arpa[:len(arpa)-len(arpaV4Suffix)]
@@ -368,7 +394,7 @@ func PrefixFromReversedAddr(arpa string) (p netip.Prefix, err error) {
 	defer makeAddrError(&err, arpa, AddrKindARPA)
 
 	// TODO(a.garipov): Add stringutil.HasSuffixFold and remove this.
-	arpa = strings.ToLower(arpa)
+	arpa = asciiToLower(arpa)
 
 	switch {
 	case strings.HasSuffix(arpa, arpaV4Suffix[len("."):]):
@@ -432,7 +458,7 @@ func ExtractReversedAddr(domain string) (pref netip.Prefix, err error) {
 
 	defer makeAddrError(&err, domain, AddrKindARPA)
 
-	domain = strings.ToLower(domain)
+	domain = asciiToLower(domain)
 
 	var parseSubnet func(arpa string) (pref netip.Prefix, err error)
 	var indexFirstLabel func(arpa string) (idx int)
